@@ -237,6 +237,15 @@ func inlineNewHelpers(p *Program) (map[*ssa.Function]bool, error) {
 			}
 		}
 	}
+	for _, f := range fns {
+		if ssa.NormalizeBranches(f) {
+			p.Normalized++
+			expanded[f] = true
+			if msg := ssa.SanityCheckInlined(f); msg != "" {
+				return nil, fmt.Errorf("normalising the branches of %s produced inconsistent SSA: %s", f.String(), msg)
+			}
+		}
+	}
 	// which new functions are still referred to?
 	used := map[*ssa.Function]bool{}
 	var rands []*ssa.Value
